@@ -57,6 +57,8 @@ def cases(tier, seed):
             for ls in LS6 + (LS_EXTRA if fam in EXACT else []):
                 for n in ns:
                     out.append(('recover', fam, m, ls, n))
+            # E2 layer: the object was fitted on another member (and queried) before
+            out.append(('recover-refit', fam, m, LS6[3], ns[0]))
     for bw in (None, 'scott', 'silverman', 0.3, 1.0):
         for weighted in (False, True):
             for ss in (None, 5, 20):
@@ -79,13 +81,24 @@ def run_case(case):
     r.state(case)
     if case[0] == 'kde':
         return _kde(r, case)
-    _, fam, mem, (loc, scale), n = case
+    kind_, fam, mem, (loc, scale), n = case
     sig = f'C04:{fam}'
     gen = GEN[fam](*mem, loc=loc, scale=scale)
     x = np.asarray(gen.ppf(A.midpoints(n)), float)
     tag = f'{fam}{mem} loc={loc} scale={scale} n={n}'
     model = _model(fam)
     r.tr()
+    if kind_ == 'recover-refit':
+        other = GEN[fam](*MEMBERS[fam][-1], loc=-40.0, scale=9.0)
+        try:
+            model.fit(np.asarray(other.ppf(A.midpoints(150)), float))
+            model.cumulative_distribution(np.array([-40.0, -35.0]))
+            model.percent_point(np.array([0.3, 0.6]))
+            model.probability_density(np.array([-38.0]))
+        except Exception:
+            pass
+        tag += ' (object previously fitted on another member and queried)'
+        r.hit('refit-history')
     try:
         model.fit(x.copy())
     except Exception as e:
@@ -241,5 +254,5 @@ def finish(agg, tier):
                                 'detail': {},
                                 'msg': f'{fam}: only {ok}/{n} datasets of its own family are recovered within the DKW '
                                        f'band (required >= 80%)'})
-    for k in ('exact-gaussian', 'exact-uniform', 'support-checked', 'user-bounds', 'kde-resample'):
+    for k in ('exact-gaussian', 'exact-uniform', 'support-checked', 'user-bounds', 'kde-resample', 'refit-history'):
         engine.require(agg['hits'].get(k, 0) >= 10, f'{k} under-explored')
